@@ -3,6 +3,7 @@ package main
 import (
 	"fmt"
 
+	"github.com/lidofinance/dc4bc/fsm/types/requests"
 	"github.com/lidofinance/dc4bc/storage"
 )
 
@@ -109,6 +110,45 @@ func scenarioC09(c *Ctx) {
 				}})
 			}
 		}
+	}
+	// an opening proposal is exempt from the signature check because it OPENS a round: posted for a
+	// round that exists (live, finished, or cancelled - final states included) it must be refused
+	// without effect, or a stranger could replace the registered keys
+	{
+		w := NewWorld(3, 2, 1)
+		me := w.Users[0]
+		round := "round-c09-reopen"
+		h := w.Honest(round, me)
+		var evil []*requests.SignatureProposalParticipantsEntry
+		for i, u := range w.Users {
+			evil = append(evil, &requests.SignatureProposalParticipantsEntry{Username: u, PubKey: userKey("stranger").Pub, DkgPubKey: []byte(fmt.Sprintf("dkgpubkey--%d", i))})
+		}
+		reopen := func(label string) Item {
+			return w.Msg(round, "event_sig_proposal_init", requests.SignatureProposalParticipantsListRequest{Participants: evil, SigningThreshold: 2, CreatedAt: T(5)}, "stranger", "", "stranger", NOWMARK, label)
+		}
+		check := func(pos string) func(o RunObs) {
+			return func(o RunObs) {
+				// (a round cancelled during key generation absorbs every later message: answered without
+				// an error, and without any effect)
+				if last := o.Classes[len(o.Classes)-1]; last == "panic" || o.Before != o.After {
+					c.Fail(Failure{Property: "C09", Kind: "existing-round-reopened", Signature: map[string]interface{}{"kind": "existing-round-reopened"},
+						What:   fmt.Sprintf("an opening proposal by a stranger for a round that already exists (%s) had an effect (class %s)", pos, last),
+						Replay: map[string]interface{}{"position": pos, "before": o.Before, "after": o.After}})
+				}
+			}
+		}
+		for k := 1; k <= len(h); k++ {
+			if c.Quick() && k%3 != 1 && k != len(h) {
+				continue
+			}
+			items := append(append([]Item{}, h[:k]...), reopen("reopen"))
+			cases = append(cases, HistCase{Kind: "reopen-live", User: me, Items: items, PrefixKey: fmt.Sprintf("%s/%d", round, k), Check: check(fmt.Sprintf("after %d messages", k))})
+		}
+		// cancelled rounds: declined by a participant; cancelled by an error report during key generation
+		declined := append(append([]Item{}, h[:2]...), w.Msg(round, "event_sig_proposal_decline_by_participant", requests.SignatureProposalParticipantRequest{ParticipantId: 1, CreatedAt: T(11)}, w.Users[1], "", w.Users[1], NOWMARK, "decline"))
+		cases = append(cases, HistCase{Kind: "reopen-declined", User: me, Items: append(declined, reopen("reopen")), Check: check("cancelled by a decline")})
+		failed := append(append([]Item{}, h[:5]...), w.Msg(round, "event_dkg_commit_confirm_canceled_by_error", requests.DKGProposalConfirmationErrorRequest{ParticipantId: 1, Error: requests.NewFSMError(fmt.Errorf("boom")), CreatedAt: T(21)}, w.Users[1], "", w.Users[1], NOWMARK, "commit-error"))
+		cases = append(cases, HistCase{Kind: "reopen-failed", User: me, Items: append(failed, reopen("reopen")), Check: check("cancelled by an error report")})
 	}
 	// messages for a round nobody has opened, with a stranger's / no signature, for every event
 	w0 := NewWorld(3, 2, 1)
